@@ -165,7 +165,9 @@ func (w *World) apply(g *G, o *op) {
 	case opNop:
 		if o.obj != nil {
 			g.hash = mix(g.hash, *o.obj, hashStr(o.name))
-			*o.obj = g.hash
+			if !o.ro {
+				*o.obj = g.hash
+			}
 		}
 		if o.eff != nil {
 			o.eff()
@@ -327,6 +329,7 @@ func (w *World) complete(p *G, c *vchan, pSends bool, v any, ok bool) any {
 		w.res.Trace = append(w.res.Trace, "       g"+p.ID+" completed by partner: "+opNames[o.kind]+" "+o.site)
 	}
 	w.resumed = append(w.resumed, p)
+	w.lastPartners = append(w.lastPartners, p)
 	return sent
 }
 
